@@ -134,7 +134,17 @@ def refs(o):
 
 def run_case(asm, acc, case):
     rng = random.Random('c08-%d-%d' % (case['seed'], case['idx']))
-    items, pess = build(rng)
+    if case['idx'] % 5 == 1:
+        # a label-dependent immediate that sits on an RVC operand-set edge while the compression pass looks at it
+        items = c12.edge_program(rng)
+        pess, pos = {}, 0
+        for it in items:
+            if it['k'] == 'label':
+                pess[it['name']] = pos
+            else:
+                pos += randprog.pess_size(it)
+    else:
+        items, pess = build(rng)
     if case['idx'] % 4 == 0:
         items = randprog.constify(rng, items, 0.15)
     for compress in (False, True):
